@@ -43,6 +43,7 @@ structure Conn where
   seenPosted : Nat := 1      -- how many of `s.posted` were already moved to the owner's queue (the add is moved at `open`)
   id : Nat := 0              -- id given by the owner (0 = not yet added)
   ow : List OwEv := []
+  cbp : String := ""         -- scripted close callbacks that panic: h = the handler's per-session one, c = the sessions' one
 
 structure D where
   conns : List Conn := []
@@ -50,6 +51,7 @@ structure D where
   queue : List (Nat × Ev) := []      -- owner's scheduler queue: (connection, event)
   counter : Nat := 1                 -- SerialIdService.nextId
   live : List (Nat × Nat) := []      -- sessions map: (id, connection)
+  armed : Option String := none      -- op recorded by `arm`, executed by `go`
 
 def M32 : Nat := 4294967296
 
@@ -72,7 +74,7 @@ def autoStep (s : St) : Option St :=
   let cands : List Lbl :=
     [.cCheck .rd, .cCheck .wr, .cCheck .hb, .cCheck .kk, .cFin .rd, .cFin .wr, .cFin .hb, .cFin .kk,
      .cLock .rd, .cLock .wr, .cLock .hb, .cLock .kk,
-     .rdTop, .rdErrRet, .rdEnd, .wrExit, .wrEnd, .hbChk, .hbSnd, .hbExit]
+     .rdTop, .rdErrRet, .rdEnd, .wrExit, .wrEnd, .hbChk, .hbSnd, .hbUnblk, .hbExit, .hbTick]
   match cands.findSome? tryL with
   | some s' => some s'
   | none =>
@@ -159,8 +161,11 @@ def rdName (c : Conn) : String :=
 def showEv : Ev → String
   | .add => "A" | .msg k => s!"M{k}" | .remove => "R"
 
-def showOw : OwEv → String
-  | .a id => s!"a{id}" | .m k => s!"m{k}" | .r => "r11"
+/-- a panicking handler callback aborts RemoveSession before the sessions' own close callback -/
+def rTok (cbp : String) : String := if cbp.contains 'h' then "r1" else "r11"
+
+def showOw (cbp : String) : OwEv → String
+  | .a id => s!"a{id}" | .m k => s!"m{k}" | .r => rTok cbp
 
 /-- messages posted after the remove are not part of the observation (the owner drops them) -/
 def evShown : List Ev → List Ev
@@ -169,7 +174,7 @@ def evShown : List Ev → List Ev
   | e :: r => e :: evShown r
 
 def showConn (c : Conn) (extra : String) : String :=
-  s!"c{c.k}:st={c.s.status.toNat},rd={rdName c},wr={if c.s.wr == .inw then "p" else "-"},cc={c.s.connCloses},nw={c.s.writes},hw={c.hw},ev={String.join ((evShown c.s.posted).map showEv)},ow={String.join (c.ow.map showOw)}" ++ extra
+  s!"c{c.k}:st={c.s.status.toNat},rd={rdName c},wr={if c.s.wr == .inw then "p" else "-"},cc={c.s.connCloses},nw={c.s.writes},hw={c.hw},ev={String.join ((evShown c.s.posted).map showEv)},ow={String.join (c.ow.map (showOw c.cbp))}" ++ extra
 
 def goroutines (d : D) : Nat :=
   d.conns.foldl (fun a c => a + (if c.s.rd == .done then 0 else 1) + (if c.s.wr == .done then 0 else 1) +
@@ -226,9 +231,11 @@ def isLive (d : D) (c : Conn) : Bool := c.id != 0 && d.live.any (fun p => p.1 ==
 def advance (d : D) (target : Nat) : Nat → D
   | 0 => d
   | n + 1 =>
-    let due := d.conns.filter fun c => c.s.hb != .done && c.s.tickAt ≤ target
+    -- a heartbeat goroutine parked in its send takes no tick (the ticker keeps one, drops the rest)
+    let due := d.conns.filter fun c => c.s.hb == .sel && c.s.tickAt ≤ target
     match due with
-    | [] => { d with now := target, conns := d.conns.map fun c => { c with s := fireL c.s [.advance (target - c.s.now)] } }
+    | [] => { d with now := target, conns := d.conns.map fun c =>
+        { c with s := fireL (fireL c.s [.advance (target - c.s.now)]) (List.replicate ((target - c.s.tickAt) / hbMs) .tickDrop) } }
     | c0 :: rest =>
       let c := rest.foldl (fun best c => if c.s.tickAt < best.s.tickAt then c else best) c0
       let t := c.s.tickAt
@@ -259,6 +266,9 @@ def endCase (d : D) : D :=
 def showOwNoId : OwEv → String
   | .a _ => "a" | .m k => s!"m{k}" | .r => "r11"
 
+/-- an application push would park its caller: queue full on an open session -/
+def wouldBlock (c : Conn) : Bool := c.s.status != .closed && c.s.closed == false && c.s.sendq ≥ sendCap
+
 def stepCore (d : D) (line : String) : D × String :=
   let ws := words line
   let k := (kvNat ws "c").getD 0
@@ -269,7 +279,7 @@ def stepCore (d : D) (line : String) : D × String :=
   | some "open" =>
     if (findConn d k).isSome || k == 0 then (d, "none") else
     let s0 : St := initAt d.now
-    let d := { d with conns := d.conns ++ [{ k := k, s := s0 }], queue := d.queue ++ [(k, .add)] }
+    let d := { d with conns := d.conns ++ [{ k := k, s := s0, cbp := (kv ws "cbp").getD "" }], queue := d.queue ++ [(k, .add)] }
     let d := settleAll d
     (d, showObs d k "")
   | some "in" =>
@@ -308,12 +318,24 @@ def stepCore (d : D) (line : String) : D × String :=
   | some "push" =>
     match findConn d k with
     | some c =>
+      if isLive d c && wouldBlock c then (d, "none") else
       let d := if isLive d c then settleAll (putConn d { c with s := fireL c.s [.push] }) else d
       (d, showObs d k "")
+    | none => (d, "none")
+  | some "fill" =>
+    -- application pushes up to the capacity of chSend while the writer is parked in Write
+    match findConn d k with
+    | some c =>
+      let n := (kvNat ws "n").getD 0
+      if c.s.wr == .inw && c.s.closed == false && c.s.status != .closed && c.s.sendq + n ≤ sendCap then
+        let d := settleAll (putConn d { c with s := fireL c.s (List.replicate n .push) })
+        (d, showObs d k s!",q={(findConn d k).map (·.s.sendq) |>.getD 0}")
+      else (d, "none")
     | none => (d, "none")
   | some "spush" =>
     match findConn d k with
     | some c =>
+      if wouldBlock c then (d, "none") else
       let r := if c.s.status == .closed then ",r=closed" else ",r=ok"
       let d := settleAll (putConn d { c with s := fireL c.s [.push] })
       (d, showObs d k r)
@@ -321,6 +343,9 @@ def stepCore (d : D) (line : String) : D × String :=
   | some "drain" => let d := drain d; (d, showObs d 0 "")
   | some "end" => let d := endCase d; (d, showObs d 0 "")
   | _ => (d, "bad-op")
+
+/-- accept burst through `StartAcceptor`: every connection is served by exactly one session and ends with one remove -/
+def burstObs (n : Nat) : String := s!"n={n},served1={n},adds={n},removes={n},closes={n}"
 
 /-- tcp smoke script: one packet per frame (TCP framing), then the read error that ends every script -/
 def tcpScript (ws : List String) : String :=
@@ -339,7 +364,17 @@ def tcpScript (ws : List String) : String :=
 
 def step (d : D) (line : String) : D × String :=
   let ws := words line
-  if ws.head? == some "reset-tcp" then ({}, tcpScript ws) else stepCore d line
+  if ws.head? == some "reset-tcp" then ({}, tcpScript ws)
+  else if ws.head? == some "reset-burst" then ({}, burstObs ((kvNat ws "n").getD 0))
+  else if ws.head? == some "arm" then
+    -- the op is only recorded (the harness flushes its trace here); `go` runs it
+    ({ d with armed := some (" ".intercalate (ws.drop 1)) }, "ok")
+  else if ws.head? == some "go" || (ws.head?.getD "").startsWith "<harness-exit" then
+    -- (a replayed `<harness-exit …>` line stands for the `go` that killed the recorded run)
+    match d.armed with
+    | some op => stepCore { d with armed := none } op
+    | none => (d, "none")
+  else stepCore d line
 
 /-! ### property predicate on implementation observations -/
 
@@ -347,10 +382,13 @@ structure SpConn where
   k : Nat
   sent : List Nat := []      -- message ids handed to the reader, in order
   lastGrant : Nat := 0       -- virtual time of the latest reader grant (the heartbeat stamp is never later)
+  cbp : String := ""         -- scripted panicking close callbacks
+  filled : Bool := false     -- its send queue was filled up: the heartbeat goroutine may be parked in its send
 
 structure Sp where
   conns : List SpConn := []
   now : Nat := 0
+  armed : Option String := none
   deriving Inhabited
 
 /-- split `A`, `M123`, `R` / `a2`, `m5`, `n5`, `r11` sequences: a token starts at a letter -/
@@ -388,6 +426,8 @@ def checkConn (sp : Sp) (atEnd : Bool) (k : Nat) (fs : List String) (allOw : Lis
   let rd := (kv fs "rd").getD ""
   let sent := ((sp.conns.find? (·.k == k)).map (·.sent)).getD []
   let lastGrant := ((sp.conns.find? (·.k == k)).map (·.lastGrant)).getD 0
+  let wantR := rTok (((sp.conns.find? (·.k == k)).map (·.cbp)).getD "")
+  let filled := ((sp.conns.find? (·.k == k)).map (·.filled)).getD false
   let st := (kvNat fs "st").getD 0
   let nA := (ev.filter (· == "A")).length
   let nR := (ev.filter (· == "R")).length
@@ -406,9 +446,9 @@ def checkConn (sp : Sp) (atEnd : Bool) (k : Nat) (fs : List String) (allOw : Lis
   else if na == 0 && (owM.length > 0 || nr > 0) then some s!"C05/session-add-missing-or-twice connection {k}: owner saw {ow} without an add"
   else if !isSubseq evM sent then some s!"C05/message-order connection {k}: posted {evM}, arrived {sent}"
   else if !isSubseq owM evM then some s!"C05/message-order connection {k}: owner saw {owM}, posted {evM}"
-  else if ow.any (fun t => t.startsWith "r" && t != "r11") then some s!"C05/close-callback-count connection {k}: {ow} (handler close callback and sessions close callback must each fire once)"
+  else if ow.any (fun t => t.startsWith "r" && t != wantR) then some s!"C05/close-callback-count connection {k}: {ow}, expected {wantR} (handler close callback, then the sessions' close callback, each once; a panicking handler callback ends the removal)"
   else if st == 4 && nR == 0 then some s!"C05/no-session-remove connection {k}: status Closed but OnSessionClose was never called"
-  else if st == 3 && nR == 0 && sp.now ≥ lastGrant + 30000 then
+  else if st == 3 && nR == 0 && !filled && sp.now ≥ lastGrant + 30000 then
     some s!"C05/no-session-remove connection {k}: Working and silent since {lastGrant} ms, now {sp.now} ms: the heartbeat did not end it"
   else if rd == "x" && nR == 0 then some s!"C05/no-session-remove connection {k}: the read goroutine has ended but OnSessionClose was never called"
   else if atEnd && (nR != 1 || cc != 1 || nr != 1) then some s!"C05/no-session-remove connection {k}: after the end of the connection ev={ev} cc={cc} ow={ow}"
@@ -443,15 +483,38 @@ def specTcp (ws : List String) (obs : String) : String :=
   else if kv fs "g" != some "0" then s!"VIOLATION C05/goroutine-leak tcp connection: goroutines left: {(kv fs "g").getD "?"}"
   else "ok"
 
+/-- accept burst: every connection served by exactly one session, added once, removed once, closed once -/
+def specBurst (ws : List String) (obs : String) : String :=
+  let fs := obs.splitOn ","
+  let n := (kvNat ws "n").getD 0
+  if kvNat fs "served1" != some n || kvNat fs "adds" != some n then
+    s!"VIOLATION C05/session-add-missing-or-twice accept burst of {n} connections: {obs} (every connection must be served by exactly one session)"
+  else if kvNat fs "removes" != some n then s!"VIOLATION C05/no-session-remove accept burst of {n} connections: {obs}"
+  else if kvNat fs "closes" != some n then s!"VIOLATION C05/conn-close-count accept burst of {n} connections: {obs}"
+  else "ok"
+
 def specStep (sp : Sp) (line : String) : Sp × String :=
-  match line.splitOn "\t" with
+  -- the observation is everything after the first tab (a crash dump contains tabs)
+  match (match line.splitOn "\t" with
+         | op :: o :: rest => [op, "\t".intercalate (o :: rest)]
+         | l => l) with
   | [op, obs] =>
     let ws := words op
     if (obs.splitOn "panic").length > 1 || obs.startsWith "<no-observation" then (sp, "VIOLATION C05/crash " ++ op ++ " -> " ++ obs) else
     if ws.head? == some "reset-tcp" then ({}, if obs == "bad-op" then "ok" else specTcp ws obs) else
+    if ws.head? == some "reset-burst" then ({}, if obs == "bad-op" then "ok" else specBurst ws obs) else
+    if ws.head? == some "arm" then ({ sp with armed := some (" ".intercalate (ws.drop 1)) }, "ok") else
+    -- `go` is judged as the op it runs
+    let isGo := ws.head? == some "go" || (ws.head?.getD "").startsWith "<harness-exit"
+    let ws := if isGo then (match sp.armed with | some a => words a | none => ws) else ws
+    let sp := if isGo then { sp with armed := none } else sp
     let sp : Sp := match ws.head? with
       | some "reset" => {}
-      | some "open" => { sp with conns := sp.conns ++ [{ k := (kvNat ws "c").getD 0, lastGrant := sp.now }] }
+      | some "open" => { sp with conns := sp.conns ++ [{ k := (kvNat ws "c").getD 0, lastGrant := sp.now, cbp := (kv ws "cbp").getD "" }] }
+      | some "fill" =>
+        if obs == "none" then sp else
+        let k := (kvNat ws "c").getD 0
+        { sp with conns := sp.conns.map fun c => if c.k == k then { c with filled := true } else c }
       | some "in" =>
         if obs == "none" then sp else
         let k := (kvNat ws "c").getD 0
@@ -480,10 +543,16 @@ def specStep (sp : Sp) (line : String) : Sp × String :=
       let g := (kvNat tws "g").getD 0
       let wrFail := ws.head? == some "wr" && kv ws "ok" == some "0"
       let kOp := (kvNat ws "c").getD 0
+      let liveIds := ((kv tws "live").getD "").splitOn "," |>.filterMap String.toNat?
+      let stale := allOw.find? fun p => p.2.any (·.startsWith "r") &&
+        (match (p.2.find? (·.startsWith "a")).map numOf with | some id => liveIds.contains id | none => false) &&
+        !(allOw.any fun q => q.1 != p.1 && !(q.2.any (·.startsWith "r")) && (q.2.find? (·.startsWith "a")).map numOf == (p.2.find? (·.startsWith "a")).map numOf)
       match rs.findSome? (fun p => checkConn sp atEnd p.1 p.2 allOw) with
       | some v => (sp, "VIOLATION " ++ v)
       | none =>
-        if wrFail && rs.any (fun p => p.1 == kOp && !(tokens ((kv p.2 "ev").getD "")).any (· == "R")) then
+        if let some p := stale then
+          (sp, s!"VIOLATION C05/removed-session-still-live connection {p.1}: the owner saw its session-removed but the session is still registered: live={(kv tws "live").getD ""}")
+        else if wrFail && rs.any (fun p => p.1 == kOp && !(tokens ((kv p.2 "ev").getD "")).any (· == "R")) then
           (sp, s!"VIOLATION C05/no-session-remove connection {kOp}: a failed write did not end the session")
         else if g < expectG then
           (sp, s!"VIOLATION C05/no-session-remove a goroutine of a connection that was never closed has ended ({g} alive, {expectG} expected)")
